@@ -147,9 +147,9 @@ class JointDataframeDataReader(AbstractDataframeDataReader):
 
         # [SPECIFIC] prepare_clean_output
         if (
-            not df_event.groupby("ID")
+            not df_event.groupby("ID", observed=True)
             .first()
-            .index.equals(df_visit.groupby("ID").first().index)
+            .index.equals(df_visit.groupby("ID", observed=True).first().index)
         ):
             raise LeaspyDataInputError(
                 "All patients must have at least one visit and one event"
@@ -158,7 +158,7 @@ class JointDataframeDataReader(AbstractDataframeDataReader):
         df = df_visit.join(df_event)
 
         # Additional crossed check
-        df_test = df.reset_index().groupby("ID").max()
+        df_test = df.reset_index().groupby("ID", observed=True).max()
         if not (
             df_test[self.event_time_name] - df_test["TIME"] >= -self.tol_diff
         ).all():
